@@ -17,10 +17,20 @@
                          | (serror xCONFLICT ((xNAME ...) ...))    process exited with status 1;
                                                                    names of the OPs completed before
                    QRES  = (srun xHID sknown) | (srun xHID sunknown) | snotfound | sbadmsg
-                         | snone     (PUSH: no handler ran; the pusher sees no status)          *)
+                         | snone     (PUSH: no handler ran; the pusher sees no status)
+   wire case   : inputs  (sroutew KIND PROTO (OP ...) (QUERY ...))
+                   PROTO = sraw | sjson | spb | sthrift | shttp | swsjson | swspb : the protocol
+                           the session pair speaks (Model.RouteWire)
+                 observed (REG (WQRES ...))
+                   WQRES = ((sseen xNAME) QRES)   the service method the serving peer's binding
+                                                  saw (recorded by a plugin), then as above;
+                                                  over swspb a CALL has no status: snone
+                         | (srefused snone)       nothing arrived, the session lives on
+                         | (sbroken snone)        nothing arrived, the session was lost
+                         | soutside               outside the model's domain                     *)
 From Coq Require Import Strings.String Strings.Byte.
 From Coq Require Import List Arith NArith Bool Lia.
-From Verif Require Import Base.Bytes Base.Val Model.Mapper Model.Router.
+From Verif Require Import Base.Bytes Base.Val Model.Mapper Model.Router Model.RouteWire.
 Import ListNotations.
 
 Definition kind_of (v : val) : option mapper_kind :=
@@ -117,8 +127,41 @@ Definition qres (r : router) (q : ns * bytes) : val :=
   | _, PUSH => vsym "none"
   end.
 
+Definition proto_of (v : val) : option proto :=
+  if sym_eqb v "raw" then Some PRaw else if sym_eqb v "json" then Some PJson
+  else if sym_eqb v "pb" then Some PPb else if sym_eqb v "thrift" then Some PThrift
+  else if sym_eqb v "http" then Some PHttp else if sym_eqb v "wsjson" then Some PWsJson
+  else if sym_eqb v "wspb" then Some PWsPb else None.
+
+(* the websocket protobuf frame has no status field: a refused CALL is seen as "nothing ran" *)
+Definition qres_p (p : proto) (r : router) (q : ns * bytes) : val :=
+  match p, fst q, dispatch r (fst q) (snd q) with
+  | PWsPb, CALL, DNotFound | PWsPb, CALL, DBadMessage => vsym "none"
+  | _, _, _ => qres r q
+  end.
+
+Definition wqres (p : proto) (r : router) (q : ns * bytes) : val :=
+  let '(s, n) := q in
+  match wire p s n with
+  | WSeen n' => VL [VL [vsym "seen"; VB n']; qres_p p r (s, n')]
+  | WRefused => VL [vsym "refused"; vsym "none"]
+  | WBroken => VL [vsym "broken"; vsym "none"]
+  | WOutside => vsym "outside"
+  end.
+
 Definition run (inp : val) : option val :=
   match inp with
+  | VL [t; kv; pv; VL ops; VL qs] =>
+      if sym_eqb t "routew" then
+        match kind_of kv, proto_of pv, ops_of ops, queries_of qs with
+        | Some k, Some p, Some os, Some ql =>
+            match run_names k init os [] with
+            | (reg, Some (r, _)) => Some (VL [reg; VL (map (wqres p r) ql)])
+            | (reg, None) => Some (VL [reg; VL []])
+            end
+        | _, _, _, _ => None
+        end
+      else None
   | VL [t; kv; VB prefix; VB name] =>
       if sym_eqb t "map" then option_map (fun k => VB (mapper k prefix name)) (kind_of kv) else None
   | VL [t; kv; VL ops; VL qs] =>
